@@ -220,16 +220,6 @@ def inputField (e : Exp) (inputless : Bool) : Option (List Nat) :=
   | some s => if s ≠ [] ∧ inputless = false then some s else none
   | none => none
 
-/-- first failing check of `prepare_job_payload`, in the order of the code -/
-def guards (pf : Platform) (e : Exp) (circuitless inputless : Bool) : Option Err :=
-  if e.filter.isNone then some .value
-  else match (if circuitless then none else checkCircuit pf e) with
-    | some err => some err
-    | none =>
-      match inputField e inputless with
-      | some s => checkInput pf e (removeModes (heraldModes e) 0 s)
-      | none => none
-
 /-- the optional fields, each behind the test the code uses -/
 def fields (e : Exp) (circuitless inputless : Bool) (base : Dict V) : Dict V :=
   let pl := if circuitless then base else dset base "circuit" (.circ e.circ e.size)
@@ -249,16 +239,27 @@ def fields (e : Exp) (circuitless inputless : Bool) (base : Dict V) : Dict V :=
 def syncFilterParam (e : Exp) : Exp :=
   { e with params := dset e.params "min_detected_photons" (pvOfFilter e.filter) }
 
-/-- `prepare_job_payload(command, circuitless, inputless, **kwargs)`: the new processor state
-(the filter parameter is re-synchronised) and `j['payload']` -/
+/-- first failing check after `_set_min_photons_parameter()` -/
+def guardsAfterSync (pf : Platform) (e : Exp) (circuitless inputless : Bool) : Option Err :=
+  match (if circuitless then none else checkCircuit pf e) with
+  | some err => some err
+  | none =>
+    match inputField e inputless with
+    | some s => checkInput pf e (removeModes (heraldModes e) 0 s)
+    | none => none
+
+/-- `prepare_job_payload(command, circuitless, inputless, **kwargs)`: the processor state afterwards
+(the filter parameter is re-synchronised as soon as the filter check has passed, also when a later
+check raises) and `j['payload']` or the exception -/
 def preparePayload (pf : Platform) (e : Exp) (cmd : String) (circuitless inputless : Bool)
-    (kw : Dict V) : Res (Exp × Dict V) :=
-  if (dget kw "command").isSome then throw .type     -- Python: multiple values for argument 'command'
-  else match guards pf e circuitless inputless with
-    | some err => throw err
-    | none =>
-      let e' := syncFilterParam e
-      pure (e', fields e' circuitless inputless (("command", V.pv (.str cmd)) :: kw))
+    (kw : Dict V) : Exp × Res (Dict V) :=
+  if (dget kw "command").isSome then (e, throw .type)     -- Python: multiple values for argument 'command'
+  else if e.filter.isNone then (e, throw .value)
+  else
+    let e' := syncFilterParam e
+    match guardsAfterSync pf e' circuitless inputless with
+    | some err => (e', throw err)
+    | none => (e', pure (fields e' circuitless inputless (("command", V.pv (.str cmd)) :: kw)))
 
 /-! ### what a receiver reads back from a payload -/
 
@@ -504,10 +505,10 @@ def inputAvailable (e : Exp) (s : Sampler) : Bool :=
   e.input.isSome || (!s.iterator.isEmpty && s.iterator.all (fun it => (dget it "input_state").isSome))
 
 /-- `Sampler._create_job(method)` on a remote processor -/
-def createJob (pf : Platform) (e : Exp) (s : Sampler) (method : Method) : Res (Exp × Job) :=
-  if !inputAvailable e s then throw .assertion
+def createJob (pf : Platform) (e : Exp) (s : Sampler) (method : Method) : Exp × Res Job :=
+  if !inputAvailable e s then (e, throw .assertion)
   else match primitive pf.commands method with
-    | none => throw .runtime
+    | none => (e, throw .runtime)
     | some (prim, conv) =>
       let names : List String := if prim.isProbs then [] else ["max_samples"]
       let command : Dict PV :=
@@ -518,11 +519,11 @@ def createJob (pf : Platform) (e : Exp) (s : Sampler) (method : Method) : Res (E
         if !method.isProbs && prim.isProbs then [("max_samples", .none), ("max_shots", .int s.maxShots)]
         else []
       match preparePayload pf e prim.name false false [] with
-      | .error err => throw err
-      | .ok (e', pl) =>
+      | (e', .error err) => (e', throw err)
+      | (e', .ok pl) =>
         let pl := if s.iterator ≠ [] then dset pl "iterator" (.iter s.iterator.length) else pl
         let pl := dset pl "max_shots" (.pv (.int s.maxShots))
-        pure (e', { payload := pl, jobName := method.name, names := names, command := command,
+        (e', pure { payload := pl, jobName := method.name, names := names, command := command,
                     mapping := mapping, resultMapping := conv, hasCtx := conv.isSome, fresh := true })
 
 /-! ### the session as a state machine: what reaches the handler's `create_job` -/
@@ -620,8 +621,8 @@ def step (w : World) (op : Op) : World × Out :=
     | none => (w, .err .precondition)
     | some e =>
       match preparePayload w.pf e cmd cl il kw with
-      | .error err => (w, .err err)
-      | .ok (e', pl) => ({ w with exp := some e' }, .payload pl)
+      | (e', .error err) => ({ w with exp := some e' }, .err err)
+      | (e', .ok pl) => ({ w with exp := some e' }, .payload pl)
   | .newSampler ms =>
     match w.exp with
     | none => (w, .err .precondition)
@@ -644,8 +645,8 @@ def step (w : World) (op : Op) : World × Out :=
     match w.exp, w.sampler with
     | some e, some s =>
       match createJob w.pf e s method with
-      | .error err => (w, .err err)
-      | .ok (e', j) => ({ w with exp := some e', jobs := w.jobs ++ [(j, s.iterator)] }, .payload j.payload)
+      | (e', .error err) => ({ w with exp := some e' }, .err err)
+      | (e', .ok j) => ({ w with exp := some e', jobs := w.jobs ++ [(j, s.iterator)] }, .payload j.payload)
     | _, _ => (w, .err .precondition)
   | .execute idx args kw =>
     match w.jobs[idx]? with
